@@ -56,6 +56,7 @@ Proof. apply Nd_ins, Nl_emp. Qed.
 
 Ltac nl := repeat first [rewrite (Nl_ins (A:=ctxn)) | rewrite (Nl_ins (A:=N)) | rewrite (Nl_ins (A:=txn))
   | rewrite (Nl_emp (A:=ctxn)) | rewrite (Nl_emp (A:=N)) | rewrite (Nl_emp (A:=txn))].
+Local Opaque pack read_dgram encode_short decode_short.
 Ltac ev := cbn -[pack insert delete lookup read_dgram encode_short decode_short].
 
 Lemma short_parts t : is_short_topic t = true -> wf_bytes t -> exists a b, t = [a; b] /\ a < 256 /\ b < 256.
